@@ -140,6 +140,13 @@ func GenR(rng *Rng, prop string, tier string) *RScript {
 	nColl := rng.Range(1, 3)
 	share := false
 	manyToOne := false
+	// fewerSrc (C01 only): fewer source than downstream channels (handlers are keyed by the downstream channel). A two-shard
+	// collection creates one handler per downstream channel first; the other collections are single-shard and "foreign": each
+	// lives on one source channel and on the downstream channel of the OTHER source channel's handler, so its stream is added to
+	// a handler that was built for another source channel (tick-only packs are emitted there, data packs are forwarded to the
+	// handler of its own source channel). Only the C01 rules are meaningful here (the routing of such placements is outside
+	// C02's quantifier, DESIGN.md section 9, C01-4).
+	fewerSrc := prop == "C01" && rng.Pct(15)
 	switch prop {
 	case "C03":
 		k.Yields = rng.Pct(80)
@@ -161,6 +168,10 @@ func GenR(rng *Rng, prop string, tier string) *RScript {
 		nP = rng.Range(1, 4)
 		nColl = rng.Range(2, 5)
 	}
+	if fewerSrc {
+		nP = 2
+		nColl = rng.Range(2, 3)
+	}
 	srcPrefix := Pick(rng, []string{"by-dev-rootcoord-dml", "src-dml"})
 	tgtPrefix := Pick(rng, []string{"by-dev-rootcoord-dml", "tgt-rootcoord-dml", "a-dml"})
 	for i := 0; i < nP; i++ {
@@ -179,16 +190,19 @@ func GenR(rng *Rng, prop string, tier string) *RScript {
 	if manyToOne {
 		nT = rng.Range(1, nP-1)
 	}
+	if fewerSrc {
+		nT = rng.Range(3, 4)
+	}
 	for i := 0; i < nT; i++ {
 		s.TgtP = append(s.TgtP, fmt.Sprintf("%s_%d", tgtPrefix, i))
 	}
-	if rng.Pct(50) || prop == "C16" || manyToOne {
+	if rng.Pct(50) || prop == "C16" || manyToOne || fewerSrc {
 		k.SrcNum, k.TgtNum = nP, nT
 	}
 	for _, p := range s.SrcP {
 		s.Log[p] = nil
 	}
-	free := rng.Pct(25) && prop != "C16"
+	free := rng.Pct(25) && prop != "C16" && !fewerSrc
 	if prop == "C02" {
 		free = rng.Pct(50)
 	}
@@ -257,6 +271,12 @@ func GenR(rng *Rng, prop string, tier string) *RScript {
 		if prop == "C16" {
 			nShard = rng.Range(1, min(2, nP))
 		}
+		if fewerSrc {
+			nShard = 1
+			if ci == 0 {
+				nShard = 2
+			}
+		}
 		// source placement: a subset of distinct pchannels
 		idx := make([]int, nP)
 		for i := range idx {
@@ -308,6 +328,19 @@ func GenR(rng *Rng, prop string, tier string) *RScript {
 			tgtIdx = make([]int, len(srcIdx))
 			for i, si := range srcIdx {
 				tgtIdx[i] = si % nT
+			}
+		} else if fewerSrc {
+			if ci == 0 {
+				srcIdx = []int{0, 1}
+				tgtIdx = []int{0, 1}
+			} else {
+				si := rng.Intn(2)
+				srcIdx = []int{si}
+				tgtIdx = []int{1 - si} // the downstream channel whose handler was built for the other source channel
+				if rng.Pct(25) {
+					tgtIdx = []int{si}
+				}
+				crossedAfter = s.Colls[0].ID
 			}
 		} else if prop == "C16" {
 			// unequal channel counts: the downstream places the collection's shards on its own channels
